@@ -39,7 +39,11 @@ T = {
     "network.find_emails": [("lp", Tmpl(b" a", 3, b"@example.com "), "both", 300)],
     "network.find_ips": [("oct", Tmpl(b" 1", 1, b".2.3.4 "), "both", 300), ("edge", Tmpl(1, b"10.2.3.4", 1), "both", 300)],
     "network.find_urls": [("path", Tmpl(b"http://a.example.com/", 2), "both", 300), ("host", Tmpl(b"http://", 1, b"example.com"), "both", 300), ("host2", Tmpl(b"http://", 2, b"example.com"), "thorough", 1500),
-                          ("ctx", Tmpl(1, b"http://example.com/a", 1), "thorough", 1500), ("ctx2", Tmpl(1, b"http://example.com/a", 1, b"b"), "thorough", 1500), ("pct", Tmpl(b"http://example.com/%", 2), "both", 300)],
+                          ("ctx", Tmpl(1, b"http://example.com/a", 1), "thorough", 1500), ("ctx2", Tmpl(1, b"http://example.com/a", 1, b"b"), "thorough", 1500), ("pct", Tmpl(b"http://example.com/%", 2), "both", 300),
+                          # host bytes that only appear after the two percent-decoding steps ('%5%42' -> '%5B' -> '[')
+                          ("hostpct_nested", Tmpl(b"http://%5%4", 1, b"x.example.com/"), "both", 300),
+                          ("hostpct_double", Tmpl(b"http://%%3", 1, b"Bexample.com/"), "both", 300),
+                          ("hostpct", Tmpl(b"http://%", 2, b"example.com/"), "thorough", 2400)],
     "path.find_path": [("seg", Tmpl(b"/usr/", 3, b"/file"), "both", 300)],
     "path.find_windows_path": [("seg", Tmpl(b"c:\\temp\\", 2, b"o\\file.txt"), "both", 300), ("unc", Tmpl(b"\\\\ho", 1, b"\\share\\file.txt"), "both", 300), ("unc2", Tmpl(b"\\\\ho", 2, b"\\share\\file.txt"), "thorough", 1500),
                                ("dots", Tmpl(b"c:\\aaa\\", 2, b"\\bbb\\file.exe"), "both", 300)],
